@@ -3,6 +3,7 @@ import importlib
 from .core import Model, Report, AnalysisError, load_known
 
 LEVEL = {"C20": "proof"}
+GENERAL_CALLS = {"C14", "C15", "C17"}
 
 
 def evaluate(prop, provider=None, tier="quick"):
@@ -10,6 +11,23 @@ def evaluate(prop, provider=None, tier="quick"):
     rep = Report(prop, tier, LEVEL.get(prop, "other"))
     model = Model(provider)
     mod.run(model, rep, tier)
+    # A new optional parameter is analysed at its default (sa/canon.py).  The effect-order, well-formedness and purity properties
+    # quantify over *every* call, also one that uses the new parameter: for them the rules run a second time on the tree with the
+    # parameter left in.  What the second run finds is reported; what it cannot read is not held against the code (the first run stands).
+    if prop in GENERAL_CALLS and any(n.startswith("new optional parameter") for n in getattr(model, "canon_notes", [])):
+        try:
+            rep2 = Report(prop, tier, LEVEL.get(prop, "other"))
+            model2 = Model(provider, specialise=False)
+            mod.run(model2, rep2, tier)
+            have = {f.ident() for f in rep.findings}
+            for f in rep2.findings:
+                if f.ident() not in have:
+                    f.message += " (on the path that uses the new optional parameter)"
+                    rep.findings.append(f)
+        except AnalysisError:
+            pass
+        except Exception:
+            pass
     return rep, model
 
 
